@@ -590,6 +590,12 @@ func (e *vestEnv) mustSucceedRules(c *fw.Case, o *txOutcome) {
 	}
 	// the fee must have been affordable
 	switch op.kind {
+	case "withdraw":
+		// whoever owns pools can sweep them at any time (before the lock end it pays nothing)
+		if op.owner != op.signer.Bech() || op.respelled || len(o.prePools[op.owner]) == 0 || !op.fee.IsZero() {
+			return
+		}
+		c.ViolateD("C06/valid-withdraw-rejected", map[string]string{"op": op.desc, "log": short(o.res.Log, 400)}, "withdraw-all of an owner with %d pools was rejected: %s", len(o.prePools[op.owner]), short(o.res.Log, 200))
 	case "send":
 		if op.owner != op.signer.Bech() || op.to == op.owner || o.pre.Accounts[op.to] != "" || isModuleAddr(op.to) || op.amount.Sign() <= 0 {
 			return
